@@ -72,6 +72,7 @@ class Extras(TypedDict):
     cls_name: str
     fn_gen: FunctionBuilder
     locals: dict[str, Any]
+    optionals_in_progress: NotRequired[list[tuple]]
     pattern: NotRequired[PatternBase]
     recursion_guard: dict[type, str]
 
